@@ -66,6 +66,16 @@ CLAIMED['C20'] = dict(
     technique="wrapper-table, bounded-subscript, argument-kind and num/denom-pairing rules over the clang-resolved AST of soplex_interface.cpp",
     ref="DESIGN.md section 4, C20")
 
+CLAIMED['C14'] = dict(
+    text="Structural necessary conditions, exhaustively over every token, arm and generator: both basis writers emit only tokens the reader handles, "
+         "under the same conditions; each reader arm assigns the statuses the writer's arm had and the reader's defaults are exactly what the "
+         "writer omits (composition of the decision tables is the identity on valid bases); default names are generated from a fresh buffer per "
+         "item in the same format on all sides (a loop-carried accumulation rule with positive and negative control); the state writers hand one "
+         "pair of name sets to LP and basis writer and saveSettingsFile writes every value next to the name of the same table and index plus the "
+         "random seed. Not a proof that a re-solve from the restored basis agrees.",
+    technique="token/decision-table extraction and composition, loop-carried-accumulation dataflow rule with controls, argument-flow rules over the clang-resolved AST",
+    ref="DESIGN.md section 4, C14")
+
 NA = {
     'C10': "every clause quantifies over run-time numbers (residuals at rounding level, singular vs. well-conditioned, agreement of multi-rhs solves); "
            "no structural clause is both checkable and necessary (DESIGN.md section 5)",
